@@ -27,6 +27,9 @@ def gen_case(r, idx):
                            mtime=r.choice([-1, -315622800, 8589934591, 8589934592, 0xFFFFFFFF, 0x100000000]))
     # xattr value lengths around the points where the decimal length prefix of the PAX record sqfs2tar writes gains a digit
     if dialect == "pax":
+        if r.random() < 0.3:
+            # the largest value Linux allows for one attribute: its PAX record is longer than 64 KiB
+            tree[b"xmax"] = Node("file", 0o644, data=[("bytes", b"m")], xattrs={b"user.max": bytes(range(256)) * 256, b"user.other": b"o"})
         for L in r.sample([74, 75, 76, 973, 974, 975, 9972, 9973, 9974], 3):
             tree[b"xlen%d" % L] = Node("file", 0o644, data=[("bytes", b"x")], xattrs={b"user.ka": b"v" * L, b"user.kb": b"w" * L})
     # sparse files with random hole layouts
